@@ -572,7 +572,7 @@ class Scene:
     """a live scene: real Plasma, Beam and emission model; `observe` evaluates the model once, `apply` changes the
     scene through public API and returns the description of the new current state"""
 
-    def __init__(self, case, attached=False):
+    def __init__(self, case, attached=False, ghosts=0):
         from cherab.core.atomic import Line, elements
         from cherab.core.model import BeamCXLine, BeamEmissionLine
         k = _classes()
@@ -586,18 +586,31 @@ class Scene:
             else:
                 rs = case['species'][case['receiver']]
             self.line = Line(getattr(elements, rs['element']), rs['charge'] - 1, tuple(case['transition']))
-            if attached:
-                self.model = BeamCXLine(self.line, lineshape=k['Shape'])
-            else:
-                self.model = BeamCXLine(self.line, self.beam, self.plasma, self.ad, lineshape=k['Shape'])
+
+            def mk():
+                if attached:
+                    return BeamCXLine(self.line, lineshape=k['Shape'])
+                return BeamCXLine(self.line, self.beam, self.plasma, self.ad, lineshape=k['Shape'])
         else:
             self.line = Line(getattr(elements, case['beam_element']), 0, (3, 2))
+
+            def mk():
+                if attached:
+                    return BeamEmissionLine(self.line)
+                return BeamEmissionLine(self.line, self.beam, self.plasma, self.ad)
+        # earlier models of the same beam / plasma that have been dropped since (they registered with the plasma's and
+        # the beam's notifier before the live model did and are garbage by now)
+        for _ in range(ghosts):
+            ghost = mk()
             if attached:
-                self.model = BeamEmissionLine(self.line)
-            else:
-                self.model = BeamEmissionLine(self.line, self.beam, self.plasma, self.ad)
+                self.beam.models = [ghost]
+            del ghost
+        self.model = mk()
         if attached:
             self.beam.models = [self.model]      # the documented way: the beam hands plasma / beam / atomic data to the model
+        if ghosts:
+            import gc
+            gc.collect(1)      # young generations only: the ghosts were created a moment ago
         self.notes = 0
         self.comp_log = []
         self.plasma.notifier.add(self._note)
@@ -1318,7 +1331,8 @@ def gen_all(ctx, n):
             apply_zeros(rng, case, rng.choice(ZEROS_CX if kind == 'cx' else ZEROS_BES))
         elif 0.4 <= u < 0.65:
             # re-evaluation stream: evaluate, change the scene through public API, evaluate again
-            case['reeval'] = dict(seed=rng.randrange(1 << 30), attached=rng.random() < 0.5, n=rng.choice([1, 1, 2, 3]))
+            case['reeval'] = dict(seed=rng.randrange(1 << 30), attached=rng.random() < 0.5, n=rng.choice([1, 1, 2, 3]),
+                                  ghosts=rng.choice([0, 0, 1, 1, 2, 3]))
             if rng.random() < 0.4:
                 # ... evaluated through the scene (World -> nodes -> Plasma / Beam -> BeamMaterial), with moves of the nodes
                 make_scene(rng, case)
@@ -1342,7 +1356,7 @@ def expand(ctx, case):
         return [(case, run_impl(case), None, None, None)], []
     import random
     rng = random.Random(re['seed'])
-    sc = Scene(case, re['attached'])
+    sc = Scene(case, re['attached'], re.get('ghosts', 0))
     prev = sc.observe(case)
     out = [(effective(case), prev, None, None, None)]
     cur = case
